@@ -219,8 +219,9 @@ def wf_cds(c):
         return "frame-not-a-CDSFrame"
     if sum(e - s for s, e in zip(c._genomic_starts, c._genomic_ends)) == 0:
         return "empty-cds"
-    if c._strand not in (Strand.PLUS, Strand.MINUS):
-        return "cds-strand-not-directional"
+    # NOT required: a directional strand.  The class documentation does not forbid an unstranded CDS and the code
+    # tolerates it (`_exon_iter` treats UNSTRANDED like PLUS); strand-specific operations then raise
+    # InvalidStrandException, a documented class.
     return None
 
 
